@@ -73,9 +73,10 @@ def fragE : Expr → Bool
   | .ffi _ _ _ args => fragArgs args
   | .struct _ fields _ => fragFields fields
   | .dot e _ => fragE e
+  | .substruct e _ => fragE e
+  | .cast e _ => fragE e
   | .block ss e => fragSs ss && fragE e
   | .mtch scrut arms => fragE scrut && fragArmsE arms && (patsTotal (patsOfE arms) || patsFlat (patsOfE arms))
-  | .cast _ _ | .substruct _ _ => false
 def fragPat : Pat → Bool
   | .default => true
   | .values vs => fragArgs vs && (decide (vs.length ≤ 1) || vs.all (fun v => (bindingOf v).isNone))
